@@ -177,7 +177,9 @@ func (w *world) observe(ctx sdk.Context, st *seqState, out *c.Out) obs {
 		panic("harness: previous block time not set")
 	}
 	o.prevNs = pt.UnixNano()
-	o.assets = k.GetParams(ctx).AssetParams
+	var stored types.Params
+	kapp.ReadParams(w.tApp, ctx, "bep3", &stored)
+	o.assets = stored.AssetParams
 	for i := 0; i < nAssets; i++ {
 		s, found := k.GetAssetSupply(ctx, denoms[i])
 		if !found {
